@@ -1,7 +1,7 @@
 #!/bin/bash
 # run every check's quick (or $1) tier for the seeds in $2 (default "0"); print one line per run
 tier=${1:-quick}; seeds=${2:-0}
-cd /verif
+cd "$(dirname "$0")/.."
 for s in $seeds; do
 for c in C01 C02 C03 C04 C05 C06 C07 C08 C09 C10 C11 C12 C13 C14 C15 C16 C17 C18 C19 C20; do
   out=$(VERIF_SEED=$s /venv/bin/python -m qmc.run $c --tier $tier 2>&1); rc=$?
